@@ -30,7 +30,8 @@ EXPLANATION = (
     "the round trip itself for every nested shape; Value equality; buffer formats of the persistence extension.")
 ASSUMPTIONS = ["BundleBuilder::set(name, v) stores v under `name`; Value builders copy what they are given", "cycle_offset(t) = (t - MIN_ST)/MIN_TD"]
 DECIDED = ["a kind-consistent ops triples", "b writer/reader field agreement and content", "c apply order", "d capture skips exactly the unrepresentable",
-           "e dense record alignment", "f replay cursor", "g sparse record"]
+           "e dense record alignment", "f replay cursor", "g sparse record",
+           'm delta_has_effect_tsd answers no-effect only after the modified map was tested']
 NOT_DECIDED = ["apply(capture(x)) = x for every shape/history", "Value equality", "persistence buffer formats"]
 
 # confirmed exceptions of the shape-agreement rule (slot -> allowed function, reason)
